@@ -175,6 +175,10 @@ func runStock(rc *RunCtx) {
 		fsink.MaxDuration = 30 * time.Millisecond
 	}
 	fsinkCE := &el.FileSink{Path: filepath.Join(dir, "logs-ce"), FileName: "ce.log", Format: string(cloudevents.FormatJSON), MaxBytes: 500}
+	// two FileSink nodes configured for one and the same file (two event flows into one log): each
+	// node serialises its own writes only; whole lines in the file are what appending to it gives
+	shA := &el.FileSink{Path: filepath.Join(dir, "logs-shared"), FileName: "shared.log", TimestampOnlyOnRotate: true}
+	shB := &el.FileSink{Path: filepath.Join(dir, "logs-shared"), FileName: "shared.log", TimestampOnlyOnRotate: true}
 	ch := make(chan *el.Event, 2)
 	chSink, _ := channel.NewChannelSink(ch, 5*time.Millisecond)
 	// FileSinks on the special paths write to the process's standard streams; inside
@@ -196,6 +200,8 @@ func runStock(rc *RunCtx) {
 		"ce":       ce,
 		"file":     fsink,
 		"filece":   fsinkCE,
+		"shA":      shA,
+		"shB":      shB,
 		"w0":       &writer.Sink{Writer: &stockWriter{out, 0}},
 		"w1":       &writer.Sink{Writer: &stockWriter{out, 1}},
 		"wce":      &writer.Sink{Writer: &stockWriter{out, 2}, Format: string(cloudevents.FormatJSON)},
@@ -208,7 +214,7 @@ func runStock(rc *RunCtx) {
 		}
 	}
 	filters := []string{"filter", "filter2", "encrypt", "gated", "encrypt2"}
-	jsonSinks := []string{"file", "w0", "w1", "chan", "fstdout", "fstderr"}
+	jsonSinks := []string{"file", "w0", "w1", "chan", "fstdout", "fstderr", "shA", "shB", "shA", "shB"}
 	ceSinks := []string{"filece", "wce", "chan"}
 	nPipes := 1 + tp.Choose(4, "npipes")
 	var pdesc []string
@@ -339,7 +345,7 @@ func runStock(rc *RunCtx) {
 	for i := 0; i < 5; i++ {
 		checkLines(fmt.Sprintf("writer%d", i), out.get(i))
 	}
-	for _, d := range []string{"logs", "logs-ce"} {
+	for _, d := range []string{"logs", "logs-ce", "logs-shared"} {
 		ents, _ := os.ReadDir(filepath.Join(dir, d))
 		for _, en := range ents {
 			data, err := os.ReadFile(filepath.Join(dir, d, en.Name()))
@@ -361,10 +367,10 @@ func max0(x int) int {
 // in which every path to it passes the encrypt filter? (conservative: only
 // reports when ALL pipelines with that sink contain the encrypt filter)
 func usesEncryptBefore(pdesc []string, where string) bool {
-	sink := map[string]string{"writer0": "w0", "writer1": "w1", "writer2": "wce", "file:logs": "file", "file:logs-ce": "filece"}[where]
+	sink := map[string]string{"writer0": "w0", "writer1": "w1", "writer2": "wce", "file:logs": "file", "file:logs-ce": "filece", "file:logs-shared": "shA"}[where]
 	found := false
 	for _, p := range pdesc {
-		if strings.HasSuffix(p, ">"+sink) {
+		if strings.HasSuffix(p, ">"+sink) || (sink == "shA" && strings.HasSuffix(p, ">shB")) {
 			found = true
 			if !strings.Contains(p, "encrypt>") && !strings.Contains(p, "encrypt2>") {
 				return false
